@@ -359,10 +359,58 @@ Definition ranges_core (P me nranges : Z) (R : list Z) (ep : option (list payloa
                           end in
                k (map fst all) (match ep with Some _ => map snd all | None => [] end)))).
 
+(* ---- SC_NOTIFY_SUPERSET: sc_notify_payload_superset -----------------------------------------------------------------------------
+   The callback compute_superset is a parameter: `extra` = the ranks it adds to the receivers, `supers` = the ranks it says
+   will contact this rank.  Isend (TRUE tag, item) to every receiver, Isend (EXTRA tag, empty) to every extra receiver, then
+     for (queue = |supers|; queue > 0;) { Iprobe (ANY, TRUE); if (flag) { Recv; queue--; continue; }
+                                          Iprobe (ANY, EXTRA); if (flag) { Recv; queue--; } }
+   Polls are wildcard receives whose reply has a negative source when flag = 0 (as for nbx). *)
+Fixpoint super_loop (fuel : nat) (queue : Z) (acc : list (Z * payload)) (k : list (Z * payload) -> prog) : prog :=
+  match fuel with
+  | O => Do (Coll K_FUEL (-1) []) (fun _ => Ret [])
+  | S f =>
+    if queue <=? 0 then k (rev acc)
+    else Do (Recv ANY c_SC_TAG_NOTIFY_SUPER_TRUE) (fun r =>
+           if hd 0 r <? 0 then
+             Do (Recv ANY c_SC_TAG_NOTIFY_SUPER_EXTRA) (fun e =>
+               if hd 0 e <? 0 then super_loop f queue acc k else super_loop f (queue - 1) acc k)
+           else super_loop f (queue - 1) ((hd 0 r, tl r) :: acc) k)
+  end.
+
+Definition super_core (fuel : nat) (R : list Z) (ep : option (list payload)) (extra supers : list Z) (sorted : bool)
+           (k : list Z -> list payload -> prog) : prog :=
+  do_sends (map (fun rp => (fst rp, c_SC_TAG_NOTIFY_SUPER_TRUE, snd rp))
+                (zip R (match ep with None => map (fun _ => []) R | Some ps => ps end)))
+    (do_sends (map (fun q => (q, c_SC_TAG_NOTIFY_SUPER_EXTRA, [])) extra)
+      (super_loop fuel (Z.of_nat (length supers)) [] (fun got =>
+         let got' := if sorted then sort_by_src got else got in
+         k (map fst got') (match ep with None => [] | Some _ => map snd got' end)))).
+
+(* ---- sc_notify_payloadv for PCX / RSX: sc_notify_payloadv_census ---------------------------------------------------------------
+   Variable-size slices: lens = number of items addressed to every receiver, slices = their bytes (lens * msz bytes each).
+   Census of (number of senders, total number of items) by Reduce_scatter_block over two ints per rank (rsx: accumulate),
+   Isend of every slice, then as many wildcard receives as the census says; the item count of a message is its byte count
+   divided by the item size; output offsets are the prefix sums in the final order (arrival order, or ascending senders).
+   Result: [number of senders] ++ senders ++ offsets (one more than senders) ++ payload bytes. *)
+Fixpoint prefix_sums (o : Z) (l : list Z) : list Z := match l with [] => [o] | x :: r => o :: prefix_sums (o + x) r end.
+Definition resultv (senders offs : list Z) (pay : payload) : payload := Z.of_nat (length senders) :: senders ++ offs ++ pay.
+
+Definition censusv_core (kind P : Z) (R lens : list Z) (slices : list payload) (msz : Z) (sorted : bool) : prog :=
+  Do (Coll kind (-1) (flat_map (fun i => match index_of i R 0 with Some j => [1; nth j lens 0] | None => [0; 0] end) (ranks P))) (fun rep =>
+    let n := Z.to_nat (hd 0 rep) in
+    do_sends (map (fun rp => (fst rp, c_SC_TAG_NOTIFY_CENSUSV, snd rp)) (zip R slices))
+      (recv_any_n n c_SC_TAG_NOTIFY_CENSUSV [] (fun got =>
+         let got' := if sorted then sort_by_src got else got in
+         Ret (resultv (map fst got')
+                      (prefix_sums 0 (map (fun sd => cdiv (Z.of_nat (length (snd sd))) msz) got'))
+                      (concat (map snd got')))))).
+
 (* ---- sc_notify_payload ------------------------------------------------------------------------------------------ *)
-(* typ: 0 allgather, 1 binary, 2 nary, 3 pex, 4 pcx, 5 rsx, 6 nbx, 7 ranges (sc_notify_type_t); fuel: bound for the nbx
-   polling loop; for ranges the parameter ntop carries the number of ranges *)
-Definition notify_prog (fuel : nat) (typ P me ntop nint nbot : Z) (sorted : bool) (R : list Z) (pays : option (list payload)) (sz : Z) (eager : bool) : prog :=
+(* typ: 0 allgather, 1 binary, 2 nary, 3 pex, 4 pcx, 5 rsx, 6 nbx, 7 ranges, 8 superset (sc_notify_type_t); fuel: bound for the
+   polling loops of nbx / superset; for ranges the parameter ntop carries the number of ranges; extra, supers: the two
+   results of the superset callback *)
+Definition notify_prog (fuel : nat) (typ P me ntop nint nbot : Z) (sorted : bool) (R : list Z) (pays : option (list payload)) (sz : Z) (eager : bool)
+           (extra supers : list Z) : prog :=
   let ep := epay pays eager in
   let k := finish R pays eager in
   if typ =? 0 then allgather_core me R ep k
@@ -373,4 +421,5 @@ Definition notify_prog (fuel : nat) (typ P me ntop nint nbot : Z) (sorted : bool
   else if typ =? 5 then census_core K_RMA P R ep sorted k
   else if typ =? 6 then nbx_core fuel R ep sorted k
   else if typ =? 7 then ranges_core P me ntop R ep sz k
+  else if typ =? 8 then super_core fuel R ep extra supers sorted k
   else Ret [].
